@@ -3,8 +3,9 @@ Inventory of nondeterminism sources and their def-use, RNG seeding discipline, d
 and of every field read by the step functions, the driver exports touch the simulation only through Iterate(),
 Python seed handling, no randomness in the deterministic engine.  Does not decide bit-identity across compilers."""
 import ast
+import re
 
-from .. import cxfe, cxa, ir, pyfe
+from .. import cxfe, cxa, ir, pyfe, pya
 from ..cxfe import kids, strip, walk, text, name_of, call_parts, uname
 from ..core import AnalysisError
 from . import c10
@@ -133,7 +134,30 @@ def rule_rng(ctx, tu, eff):
     ctx.floor(R, 9)
 
 
-def rule_globals(ctx, tu):
+def handled_codes(py, qual):
+    """return codes of the native initialiser that the Python caller turns into an exception: `if res == k: raise`, or every
+    non-zero code (`if res != 0: raise` / `if res: raise`)"""
+    import ast
+    f = py.fn(qual)
+    res = None
+    for st in ast.walk(f):
+        if isinstance(st, ast.Assign) and isinstance(st.value, ast.Call) and "engineexport_initialize" in pyfe.src(st.value.func):
+            res = pyfe.src(st.targets[0])
+    if res is None:
+        return None
+    codes = set()
+    for st in ast.walk(f):
+        if isinstance(st, ast.If) and any(isinstance(x, ast.Raise) for b in st.body for x in ast.walk(b)):
+            for a, pol in pya.atoms(st.test, True):
+                m = re.match(r"^%s == (\d+)$" % re.escape(res), a)
+                if m and pol:
+                    codes.add(int(m.group(1)))
+                if (a == "%s == 0" % res and pol is False) or (a == res and pol):
+                    codes.add("*")
+    return codes
+
+
+def rule_globals(ctx, tu, py=None):
     R = "C08.GLOBALS"
     ptrs, bools = c10.globals_info(tu)
     names = sorted(g["name"] for g in tu.globals)
@@ -166,7 +190,22 @@ def rule_globals(ctx, tu):
                 ctx.check((need, True) in cfg, R, node, name, "success path: %s" % need.replace("set:", "assigns "),
                           "definitely assigned (fresh object)", "a successful set-up can leave %s from a previous simulation"
                           % need.split(":")[1])
-    ctx.floor(R, 7)
+        # refusals: a non-zero code either becomes an exception in the Python caller, or it is decided by the arguments alone
+        # (values the Python setters have already restricted) -- never by what an earlier set-up left in the library
+        if py is not None:
+            hc = handled_codes(py, "librdengine.LibRDEngine._setup_" + name.rsplit("_", 1)[1])
+            ctx.need(hc is not None, R, "caller of %s: result of the call not kept" % name)
+            gl = {g_["name"] for g_ in tu.globals}
+            for node, v, cfg in rets:
+                if v in (0, None):
+                    continue
+                dep = sorted({g_ for g_ in gl for a, _ in cfg if isinstance(a, str) and not a.startswith("set:") and re.search(r"\b%s\b" % re.escape(g_), a)})
+                ctx.check(v in hc or "*" in hc or not dep, R, node, name, "return %s" % v, "raised by the caller" if
+                          (v in hc or "*" in hc) else "decided by the arguments alone", "the initialiser refuses with code %s "
+                          "depending on the library-wide `%s`, and the Python caller ignores that code: set-up returns normally "
+                          "without having initialised anything, the calls that follow drive the simulation of an earlier set-up"
+                          % (v, dep[0] if dep else ""))
+    ctx.floor(R, 7 if py is None else 12)
 
 
 def flow_summary(tu, f, concrete, memo, stack=()):
@@ -414,7 +453,7 @@ def run(ctx):
     eff = cxa.Effects(tu)
     rule_src(ctx, tu)
     rule_rng(ctx, tu, eff)
-    rule_globals(ctx, tu)
+    rule_globals(ctx, tu, ctx.py)
     rule_init_all(ctx, tu, eff)
     rule_slice(ctx, tu)
     rule_py_seed(ctx, py)
